@@ -300,6 +300,8 @@ fn run_cmd(a: &[String]) -> i32 {
 
     // ---- 3. aggregate ----
     let mut evaluations = 0u64;
+    let mut extra_evaluations = 0u64;
+    let mut extra_nontrivial = 0u64;
     let mut fps: BTreeSet<(String, u64)> = BTreeSet::new();
     let mut classes: BTreeMap<String, u64> = BTreeMap::new();
     let mut counters: BTreeMap<String, u64> = BTreeMap::new();
@@ -329,6 +331,13 @@ fn run_cmd(a: &[String]) -> i32 {
             *classes.entry(format!("{}:{}", rep.sub, k)).or_insert(0) += v;
         }
         for (k, v) in rep.counters {
+            // checks that enumerate inside one generated case report their executions
+            if k == "executions" {
+                extra_evaluations += v;
+            }
+            if k == "nontrivial_executions" {
+                extra_nontrivial += v;
+            }
             *counters.entry(format!("{}:{}", rep.sub, k)).or_insert(0) += v;
         }
         for (k, v) in rep.excluded_known {
@@ -390,8 +399,9 @@ fn run_cmd(a: &[String]) -> i32 {
         "seed": seed as i64,
         "level": prop.level,
         "coverage": {
-            "evaluations": evaluations + replayed,
-            "distinct_nontrivial": fps.len(),
+            "evaluations": evaluations + replayed + extra_evaluations,
+            "distinct_nontrivial": fps.len() as u64 + extra_nontrivial,
+            "generated_cases": evaluations,
             "rule": prop.rule,
             "samples": samples,
             "classes": classes,
